@@ -25,12 +25,16 @@ EXPLANATION = (
     "numbering of the C sources (every computed scalar and SIMD lane expanded into a polynomial normal form over the inputs; no execution, no solver): the key matrix K built from the inner-product "
     "matrix M, its characteristic polynomial and the coefficients handed to the quartic solver, the msd formula, the eigenvector as cofactors of K - lambda I, the rotation matrix as a proper rotation, "
     "and the identity tying rotation convention, matrix layout and kernel argument order together (sum_ij R_ij M_ji = q^T K q). The SSE kernels are evaluated lane by lane including the masked tail "
-    "iteration. On top: prange/serial branch equality, the superpose protocol, validity of the cached traces and the roles of the arrays at every kernel call site of _rmsd.pyx.")
-NOT_DECIDED = ["float32 rounding, conditioning of the quartic solver and of the adjugate near degenerate eigenvalues", "that quartic_equation_solve_exact returns the real roots (numerical routine)",
-               "lprmsd (permutation search)"]
-ASSUMPTIONS = ["exact real arithmetic for the identities", "lane semantics of the SSE intrinsics as tabulated in sa/symval.py",
+    "iteration. The closed-form solvers behind lambda_max are decided algebraically as well: each root expression of the Cardano / trigonometric / repeated-root cases and of Ferrari's method is "
+    "substituted into its polynomial and reduced to zero modulo the relations of the radicals on that path (16 paths of the quartic, 3 of the cubic), and every sqrt / acos / cube root / division is shown to "
+    "be evaluated under conditions that keep its argument in the domain. On top: prange/serial branch equality, the superpose protocol, validity of the cached traces and the roles of the arrays at every kernel call site of _rmsd.pyx.")
+NOT_DECIDED = ["float32 rounding, conditioning of the quartic solver and of the adjugate near degenerate eigenvalues", "floating-point accuracy of the closed-form cubic / quartic solvers (their algebra - every reported root is a root, every radical is taken inside its domain - is decided, R7/R8)",
+               "that D2 and E2 are non-negative for the characteristic polynomial of the symmetric K (all four roots real): DirectSolve takes the maximum over r1..r4 without looking at nr12/nr34",
+               "sqrt(u1^2 - 4 a0) in the R = 0 case of the quartic solver has no guard", "lprmsd (permutation search)"]
+ASSUMPTIONS = ["exact real arithmetic for the identities", "cos(3t) = 4 cos(t)^3 - 3 cos(t); cbrt(u) cbrt(v) = cbrt(uv) for real cube roots; sqrt(u^3) = sqrt(u)^3 for u >= 0; "
+               "delta = q^3 + r^2 < 0 implies q < 0 and |r| < sqrt(-q^3)", "lane semantics of the SSE intrinsics as tabulated in sa/symval.py",
                "largest eigenvalue of K gives the optimal rotation (Theobald 2005; Horn 1987)"]
-FLOORS = {"C06-R1": 8, "C06-R2": 10, "C06-R3": 8, "C06-R4": 30, "C06-R5": 20, "C06-R6": 20, "C06-R7": 18}
+FLOORS = {"C06-R1": 8, "C06-R2": 10, "C06-R3": 8, "C06-R4": 30, "C06-R5": 20, "C06-R6": 20, "C06-R7": 18, "C06-R8": 12}
 
 PYX = "mdtraj/rmsd/_rmsd.pyx"
 TRAJ = "mdtraj/core/trajectory.py"
@@ -55,6 +59,8 @@ def check(ctx):
     r6(ctx)
     ctx.rule("C06-R7", "every sqrt / acos / pow(.,1/3) / division of the closed-form cubic and quartic solvers is evaluated only where the conditions on its path put the argument inside the function's domain")
     r7_partial_functions(ctx)
+    ctx.rule("C06-R8", "the closed-form solvers return roots: each returned expression substituted into the cubic / quartic vanishes modulo the relations of its radicals, the triple-angle identity and the resolvent cubic")
+    r8_closed_form_roots(ctx)
 
 
 # ---------------------------------------------------------------------------------------------------
@@ -854,3 +860,281 @@ def r7_partial_functions(ctx):
         ctx.decide(ok, "C06-R7", C.line(calls[0]) if calls else C.line(fn), TH, caller, "%s is called with leading coefficient 1.0 (the divisions by it are exact)" % callee, "", "leading coefficient passed to %s is not the literal 1.0" % callee)
     if n_ops < 18 and not n_bad:
         raise AnalysisError("C06-R7: only %d partial operations found in the cubic / quartic solvers (20 confirmed by hand)" % n_ops)
+
+
+# ---------------------------------------------------------------------------------------------------
+def _subs(x, mapping):
+    return Rat(x.n.subs(mapping), x.d.subs(mapping))
+
+
+def _cbrt_idiom(c, a, b, n, st, ex_):
+    """(X >= 0) ? pow(X, 1/3) : -pow(-X, 1/3)  is the real cube root of X"""
+    from fractions import Fraction
+
+    def single_opaque(v):
+        p = v.poly() if isinstance(v, Rat) else None
+        if p is None or len(p.t) != 1:
+            return None
+        (m, cf_), = p.t.items()
+        if cf_ != 1 or len(m) != 1 or m[0][1] != 1 or m[0][0] not in ex_.opaque:
+            return None
+        return ex_.opaque[m[0][0]]
+    oa = single_opaque(a)
+    ob = single_opaque(-b) if isinstance(b, Rat) else None
+    if oa and ob and oa[0] == "pow" and ob[0] == "pow" and oa[1][1].const_value() == Fraction(1, 3) and ob[1][1].const_value() == Fraction(1, 3) and ob[1][0] == -oa[1][0]:
+        cs = c.poly() if isinstance(c, Rat) else None
+        want = "(%s>=0)" % repr(oa[1][0])
+        if cs is not None and len(cs.t) == 1 and list(cs.t)[0] == ((want, 1),):
+            return ex_.opaque_call("cbrt", [oa[1][0]])
+    return None
+
+
+def _sqrt_order(opaque):
+    """sqrt symbols, a symbol before every symbol that occurs in its argument"""
+    syms = [s for s, (f, a) in opaque.items() if f == "sqrt"]
+    out = []
+    while syms:
+        for s in syms:
+            if not any(s in opaque[t][1][0].vars() for t in syms if t != s):
+                out.append(s)
+                syms.remove(s)
+                break
+        else:
+            raise AnalysisError("cyclic sqrt symbols")
+    return out
+
+
+def r8_closed_form_roots(ctx):
+    """The numbers the cubic and quartic solvers return are roots: substituting each returned expression into the polynomial gives zero modulo
+    the defining relations of the radicals on that path (sqrt(u)^2 = u, cbrt(u)^3 = u, cbrt(u) cbrt(v) = cbrt(uv), the triple-angle identity
+    for cos(acos(rho)/3), and - for the quartic - the resolvent cubic of which u1 is a root)."""
+    from ..poly import rewrite_power
+    cf = C.get(ctx.repo)
+    one = Rat(Poly.const(1))
+
+    def dec(ok, fname, node, what, why):
+        ctx.decide(ok, "C06-R8", node, TH, fname, what, "", why)
+
+    # ------------------------------------------------------------------ cubic
+    fn = cf.function(TH, "solve_cubic_equation")
+    ctx.analysed_functions.add(TH + ":solve_cubic_equation")
+    ln = C.line(fn)
+    ex = SymExec(cf, TH)
+    ex.ternary_model = _cbrt_idiom
+    a2, q, r = _sym("a2"), _sym("q"), _sym("r")
+    a1 = 3 * q + a2 * a2 / 3
+    a0 = a1 * a2 / 3 - 2 * r - 2 * a2 * a2 * a2 / 27
+    st = State()
+    for p, v in (("c3", one), ("c2", a2), ("c1", a1), ("c0", a0)):
+        st.env[p] = v
+    from ..symval import Addr
+    for p in ("x1", "x2", "x3"):
+        st.env[p] = Addr("out_" + p)
+    try:
+        outs = ex.run(C.kids(C.body_of(fn)), st)
+    except Unsupported as e:
+        ctx.undecided("C06-R8", ln, TH, "solve_cubic_equation", "roots", "not evaluable: %s" % e)
+        outs = []
+
+    def P3(x):
+        return x * x * x + a2 * x * x + a1 * x + a0
+    paths = {}
+    for o in outs:
+        key = tuple(p for _, p in o.conds)
+        paths[key] = o
+    if outs:
+        o = outs[0]
+        ok = o.env.get("q") == q and o.env.get("r") == r and o.env.get("delta") == q * q * q + r * r
+        dec(ok, "solve_cubic_equation", ln, "with x^3 + a2 x^2 + a1 x + a0: q = a1/3 - a2^2/9, r = (a1 a2 - 3 a0)/6 - a2^3/27, delta = q^3 + r^2",
+            "the invariants of the depressed cubic are computed as q = %r, r = %r, delta = %r for a1 = 3q + a2^2/3, a0 = a1 a2/3 - 2r - 2 a2^3/27" % (o.env.get("q"), o.env.get("r"), o.env.get("delta")))
+        conds = [c for c, _ in max((o.conds for o in outs), key=len)]
+        ok = [re.sub(r"[()\s]", "", c) for c in conds] == ["delta>0.0", "delta<0.0"] and set(paths) == {(True,), (False, True), (False, False)}
+        dec(ok, "solve_cubic_equation", ln, "three cases: delta > 0, delta < 0, delta = 0", "the case split is %s" % sorted(paths))
+    # delta > 0: one real root  s1 + s2 - a2/3
+    o = paths.get((True,))
+    if o is not None:
+        x1 = o.env.get("out_x1")
+        cb = [s for s, (f, a) in ex.opaque.items() if f == "cbrt" and s in x1.vars()]
+        sq = [s for s, (f, a) in ex.opaque.items() if f == "sqrt" and any(s in ex.opaque[c][1][0].vars() for c in cb)]
+        okshape = len(cb) == 2 and len(sq) == 1 and ex.opaque[sq[0]][1][0] == q * q * q + r * r
+        if okshape:
+            D = _sym(sq[0])
+            args = {c: ex.opaque[c][1][0] for c in cb}
+            okshape = all(a.poly() is not None for a in args.values()) and {repr(args[cb[0]] - r), repr(args[cb[1]] - r)} == {repr(D), repr(-D)}
+        if not okshape:
+            dec(False, "solve_cubic_equation", ln, "delta > 0: x1 = cbrt(r + sqrt(delta)) + cbrt(r - sqrt(delta)) - a2/3", "x1 is %r" % x1)
+        else:
+            E = P3(x1)
+            num = E.n
+            # cbrt(u) cbrt(v) = cbrt(uv) = cbrt(r^2 - delta) = cbrt(-q^3) = -q ; cbrt(u)^3 = u ; sqrt(delta)^2 = delta
+            def step(md):
+                e1, e2 = md.get(cb[0], 0), md.get(cb[1], 0)
+                if e1 and e2:
+                    k = min(e1, e2)
+                    md[cb[0]] -= k
+                    md[cb[1]] -= k
+                    return _mono(md) * (-q.n) ** k
+                for c in cb:
+                    if md.get(c, 0) >= 3:
+                        md[c] -= 3
+                        return _mono(md) * args[c].poly()
+                if md.get(sq[0], 0) >= 2:
+                    md[sq[0]] -= 2
+                    return _mono(md) * (q * q * q + r * r).n
+                return None
+            red = _reduce_poly(num, step)
+            dec(red.is_zero() and o.ret is not None and o.ret.const_value() == 1, "solve_cubic_equation", ln, "delta > 0: x1 = cbrt(r + sqrt(delta)) + cbrt(r - sqrt(delta)) - a2/3 is a root; one real root reported",
+                "p(x1) does not vanish modulo the radical relations (remainder %r); return value %r" % (red if len(red.t) < 6 else "%d terms" % len(red.t), o.ret))
+    # delta < 0: trigonometric form
+    o = paths.get((False, True))
+    if o is not None:
+        xs = [o.env.get("out_x%d" % k) for k in (1, 2, 3)]
+        op = ex.opaque
+        cos_s = [s for s, (f, a) in op.items() if f == "cos" and s in xs[0].vars()]
+        ok = len(cos_s) == 1
+        th = op[cos_s[0]][1][0] if ok else None
+        ac = [s for s, (f, a) in op.items() if f == "acos" and ok and th == _sym(s) / 3]
+        ok = ok and len(ac) == 1
+        s3 = [s for s, (f, a) in op.items() if f == "sqrt" and a[0] == -(q * q * q)]
+        s1 = [s for s, (f, a) in op.items() if f == "sqrt" and a[0] == -q]
+        w = [s for s, (f, a) in op.items() if f == "sqrt" and a[0].const_value() == 3]
+        sn = [s for s, (f, a) in op.items() if f == "sin" and ok and a[0] == th]
+        ok = ok and len(s3) == 1 and len(s1) == 1 and len(w) == 1 and len(sn) == 1 and op[ac[0]][1][0] == r / _sym(s3[0])
+        dec(ok, "solve_cubic_equation", ln, "delta < 0: theta = acos(r / sqrt(-q^3)) / 3, cos / sin of theta, sqrt(-q), sqrt(3)", "the trigonometric branch is built from %s" % sorted((f, repr(a[0])[:40]) for s, (f, a) in op.items() if s in xs[0].vars() | xs[1].vars()))
+        if ok:
+            Cc, Ss, SQ, W = _sym(cos_s[0]), _sym(sn[0]), _sym(s1[0]), _sym(w[0])
+            # triple angle: cos(3 theta) = 4 C^3 - 3 C = r / sqrt(-q^3) = r / SQ^3   =>   r = SQ^3 (4 C^3 - 3 C);   q = -SQ^2
+            rsub = (SQ * SQ * SQ * (4 * Cc * Cc * Cc - 3 * Cc)).poly()
+            for k, x in enumerate(xs, 1):
+                E = P3(x)
+                E = _subs(E, {"r": rsub, "q": (-(SQ * SQ)).poly()})
+                E = rewrite_power(E, sn[0], 2, one - Cc * Cc)
+                E = rewrite_power(E, w[0], 2, Rat(Poly.const(3)))
+                dec(E.n.is_zero(), "solve_cubic_equation", ln, "delta < 0: x%d is a root (triple-angle identity, sin^2 = 1 - cos^2)" % k,
+                    "p(x%d) does not vanish for x%d = %r (remainder of %d terms)" % (k, k, x, len(E.n.t)))
+            dec(o.ret is not None and o.ret.const_value() == 3, "solve_cubic_equation", ln, "delta < 0: three real roots reported", "return value %r" % o.ret)
+    # delta == 0: repeated root
+    o = paths.get((False, False))
+    if o is not None:
+        xs = [o.env.get("out_x%d" % k) for k in (1, 2, 3)]
+        cb = [s for s, (f, a) in ex.opaque.items() if f == "cbrt" and a[0] == r]
+        if len(cb) != 1 or any(set(x.vars()) - {"a2", cb[0]} for x in xs):
+            dec(False, "solve_cubic_equation", ln, "delta = 0: roots from s = cbrt(r)", "roots are %r" % xs)
+        else:
+            s = _sym(cb[0])
+            for k, x in enumerate(xs, 1):
+                E = _subs(P3(x), {"r": (s * s * s).poly(), "q": (-(s * s)).poly()})      # r = s^3 and, from delta = 0, q = -s^2
+                dec(E.n.is_zero(), "solve_cubic_equation", ln, "delta = 0: x%d is a root (r = s^3, q = -s^2)" % k, "p(x%d) does not vanish for x%d = %r" % (k, k, x))
+    # ------------------------------------------------------------------ quartic (Ferrari, through the resolvent cubic)
+    fnq = cf.function(TH, "quartic_equation_solve_exact")
+    ctx.analysed_functions.add(TH + ":quartic_equation_solve_exact")
+    lq = C.line(fnq)
+    seen = {}
+
+    def cm(name, args, n, st_, ex_):
+        if name == "solve_cubic_equation":
+            seen["args"] = args[:4]
+            for k, a in zip(("xi1", "xi2", "xi3"), args[4:7]):
+                st_.env[a.key] = _sym(k)
+            return _sym("nr")
+        return None
+    exq = SymExec(cf, TH, call_model=cm)
+    A0, A1, A2, A3 = _sym("a0"), _sym("a1"), _sym("a2"), _sym("a3")
+    st = State()
+    for p, v in (("d0", A0), ("d1", A1), ("d2", A2), ("d3", A3), ("d4", one)):
+        st.env[p] = v
+    for p in ("r1", "r2", "r3", "r4", "nr12", "nr34"):
+        st.env[p] = Addr("out_" + p)
+    try:
+        outs = exq.run(C.kids(C.body_of(fnq)), st)
+    except Unsupported as e:
+        ctx.undecided("C06-R8", lq, TH, "quartic_equation_solve_exact", "roots", "not evaluable: %s" % e)
+        return
+    if "args" not in seen or seen["args"][0].const_value() != 1:
+        dec(False, "quartic_equation_solve_exact", lq, "the resolvent cubic is solved in monic form", "solve_cubic_equation is called with %s" % (seen.get("args"),))
+        return
+    _, au2, au1, au0 = seen["args"]
+
+    def P4(x):
+        return x * x * x * x + A3 * x * x * x + A2 * x * x + A1 * x + A0
+    n_checked = 0
+    bad = []
+    flags = sorted({v for o in outs for k in ("out_r1", "out_r2", "out_r3", "out_r4") for v in o.env[k].vars() if v.startswith("(")})
+    for o in outs:
+        pol = {re.sub(r"[()\s]", "", c): p for c, p in o.conds}
+        if set(pol) != {"nr==1", "R!=0.0", "D2>=0.0", "E2>=0.0"}:
+            dec(False, "quartic_equation_solve_exact", lq, "case split nr == 1, R != 0, D2 >= 0, E2 >= 0", "path conditions are %s" % sorted(pol))
+            return
+        u = o.env.get("u1")
+        choices = [{}]
+        uf = [v for v in u.vars() if v.startswith("(")]
+        if uf:
+            choices = [{uf[0]: Poly.const(1)}, {uf[0]: Poly.const(0)}]
+        for ch in choices:
+            sub = dict(ch)
+            uval = _subs(u, sub)
+            xi = [v for v in uval.vars()]
+            if len(xi) != 1 or uval != _sym(xi[0]) or xi[0] not in ("xi1", "xi3"):
+                bad.append("u1 = %r is not one of the real roots x1 / x3 of the resolvent" % uval)
+                continue
+            xin = xi[0]
+            X = _sym(xin)
+            R2 = _subs(o.env.get("R2"), sub)
+            gflag = [v for v in _subs(o.env.get("R"), sub).vars() if v.startswith("(")]
+            sub2 = dict(sub)
+            for g in gflag:
+                sub2[g] = Poly.const(1 if pol["R!=0.0"] else 0)
+            extra = {}
+            if not pol["R!=0.0"]:
+                # R = 0 means R2 = 0: u1 = a2 - a3^2/4; the resolvent at that point is -(a1 - a2 a3/2 + a3^3/8)^2, hence a1 = a2 a3/2 - a3^3/8
+                ustar = A2 - A3 * A3 / 4
+                res = ustar * ustar * ustar + au2 * ustar * ustar + au1 * ustar + au0
+                H = A1 - A2 * A3 / 2 + A3 * A3 * A3 / 8
+                if not (res + H * H).n.is_zero():
+                    bad.append("resolvent(a2 - a3^2/4) is not -(a1 - a2 a3/2 + a3^3/8)^2: the R = 0 case cannot be related to the coefficients")
+                    continue
+                extra = {xin: ustar.poly(), "a1": (A2 * A3 / 2 - A3 * A3 * A3 / 8).poly()}
+            claimed = (["out_r1", "out_r2"] if pol["D2>=0.0"] else []) + (["out_r3", "out_r4"] if pol["E2>=0.0"] else [])
+            for key in claimed:
+                E = _subs(P4(o.env[key]), sub2)
+                for s in _sqrt_order(exq.opaque):
+                    if s not in E.n.vars() and s not in E.d.vars():
+                        continue
+                    arg = _subs(exq.opaque[s][1][0], sub2)
+                    E = rewrite_power(E, s, 2, arg)
+                if extra:
+                    # eliminate u1 and a1; a remaining sqrt argument is rewritten with them too
+                    E = Rat(E.n.subs({k: v for k, v in extra.items()}), E.d.subs({k: v for k, v in extra.items()}))
+                    for s in _sqrt_order(exq.opaque):
+                        if s in E.n.vars() or s in E.d.vars():
+                            E = rewrite_power(E, s, 2, _subs(_subs(exq.opaque[s][1][0], sub2), extra))
+                    # sqrt symbols whose names still mention the eliminated variables stand for the substituted arguments
+                else:
+                    E = rewrite_power(E, xin, 3, -(au2 * X * X + au1 * X + au0))
+                n_checked += 1
+                if not E.n.is_zero():
+                    bad.append("%s on path %s (u1 = %s): p(root) leaves a remainder of %d terms" % (key[4:], sorted(k for k, v in pol.items() if v), xin, len(E.n.t)))
+    dec(not bad and n_checked >= 32, "quartic_equation_solve_exact", lq, "every root reported as real satisfies x^4 + a3 x^3 + a2 x^2 + a1 x + a0 = 0 modulo the radicals and the resolvent (%d root expressions on %d paths)" % (n_checked, len(outs)),
+        "; ".join(bad[:3]) if bad else "only %d root expressions were reached" % n_checked)
+
+
+def _mono(md):
+    from fractions import Fraction
+    return Poly({tuple(sorted((v, e) for v, e in md.items() if e)): Fraction(1)})
+
+
+def _reduce_poly(p, step, limit=500):
+    for _ in range(limit):
+        out = Poly()
+        changed = False
+        for m, c in p.t.items():
+            r = step(dict(m))
+            if r is None:
+                out = out + Poly({m: c})
+            else:
+                changed = True
+                out = out + r * Poly.const(c)
+        p = out
+        if not changed:
+            return p
+    raise AnalysisError("radical reduction did not terminate")
